@@ -21,6 +21,7 @@ PROPS = {
     "C01": ["contracts.c01_simplifier"],
     "C03": ["contracts.c03_typechecker", "contracts.c06_constructors"],
     "C06": ["contracts.c06_constructors"],
+    "C12": ["contracts.c12_oracles"],
 }
 
 
